@@ -41,7 +41,7 @@ var ruleSets = map[string]func(a *Analyzer, r *Results){
 // which rule sets each property needs
 var propSets = map[string][]string{
 	"C01": {"more", "ingest", "proof", "c06"},
-	"C02": {"c02", "c12"},
+	"C02": {"c02", "c12", "c20"},
 	"C03": {"ingest", "c20", "c02"},
 	"C04": {"ingest", "proof"},
 	"C05": {"more", "ingest", "chan", "loops", "setters", "c19f"},
@@ -51,10 +51,10 @@ var propSets = map[string][]string{
 	"C09": {"more", "ingest", "c20"},
 	"C10": {"ingest", "setters", "c20"},
 	"C11": {"more", "ingest", "proof", "c20"},
-	"C12": {"more", "c12", "c18", "locks", "ingest"},
+	"C12": {"more", "c12", "c18", "locks", "ingest", "loops"},
 	"C13": {"more", "ingest", "setters", "locks", "registry", "loops", "c17"},
 	"C14": {"more", "ingest", "chan", "sync", "loops", "registry", "shutdown", "timer"},
-	"C15": {"more", "ingest", "registry", "locks", "loops", "sync", "shutdown"},
+	"C15": {"more", "ingest", "registry", "locks", "loops", "sync", "shutdown", "chan"},
 	"C16": {"more", "chan", "spawn", "shutdown", "timer", "c12", "registry", "ingest"},
 	"C17": {"more", "ingest", "c17"},
 	"C18": {"more", "c18", "ingest"},
